@@ -115,7 +115,9 @@ func (e *Exec) atoiSym(s Value) Value {
 		return TupleV{BV(64, uint64(int64(n))), errNil()}
 	}
 	bs := strBytes(s)
-	fail := func() Value { return TupleV{BV(64, 0), e.newError(StrV("strconv.Atoi: parsing (symbolic): invalid syntax"))} }
+	fail := func() Value {
+		return TupleV{BV(64, 0), e.newError(StrV("strconv.Atoi: parsing (symbolic): invalid syntax"))}
+	}
 	if len(bs) == 0 {
 		return fail()
 	}
